@@ -6,8 +6,9 @@ MODULE = "Trace_C05"
 
 
 def describe(e):
+    import vlib
     return "curve/scalar %s (cfg %s): recorded result differs from the Z/L specification; inputs=%s" % (
-        e.get("op"), e.get("cfg"), {k: v for k, v in e.items() if k in ("a", "b", "as")})
+        e.get("op"), e.get("cfg"), vlib.shrink({k: v for k, v in e.items() if k in ("a", "b", "as")}))
 
 
 def run(R):
